@@ -546,9 +546,10 @@ class ArgumentParser(ParserDeprecations, ActionsContainer, ArgumentLinking, argp
                 env_val = env[env_var]
                 if env_val in action.choices:
                     cfg[action.dest] = subcommand = self._check_value_key(action, env_val, action.dest, cfg)
-                    pcfg = action._name_parser_map[env_val].parse_env(env=env, defaults=defaults, _skip_validation=True)
-                    for k, v in vars(pcfg).items():
-                        cfg[subcommand + "." + k] = v
+                    # only what the environment gives: the subcommand's defaults are merged underneath later on
+                    # (handle_subcommands); copying them here would override default config files and the env config
+                    pcfg = action._name_parser_map[env_val].parse_env(env=env, defaults=False, _skip_validation=True)
+                    cfg.update(pcfg, subcommand)
         for action in actions:
             env_var = get_env_var(self, action)
             if env_var in env and not isinstance(action, (ActionConfigFile, _ActionSubCommands)):
